@@ -83,8 +83,8 @@ def run(rep, scratch, tier, seed, replay=None):
             # (a zero-length file is initialised by bbolt when opened read-write; the properties
             #  only speak about index files and bbolt files here)
             why = "the file was modified by opening it"
-        elif "CLOSE-PANIC" in a or "CLOSE2-ERR" in a:
-            why = "a second Close %s" % ("panicked" if "CLOSE-PANIC" in a else "returned an error")
+        elif "CLOSE-PANIC" in a or "CLOSE2-ERR" in a or "CLOSE-HANG" in a:
+            why = "repeated Close (4 calls) %s" % ("panicked" if "CLOSE-PANIC" in a else "did not return" if "CLOSE-HANG" in a else "returned an error")
         elif a[-1] not in ("RELEASED", "UNCHANGED", "MODIFIED") and any(x in a[-1] for x in ("PANIC", "HANG")):
             why = "re-opening after the first attempt: %s" % a[-1]
         elif oc == "ERR" and a[-1] not in ("", "ERR") and a[-1].split(",")[0] != "ERR":
